@@ -404,6 +404,8 @@ class Builder(object):
     def pub_value(self, name, t, ti, pi):
         r = self.r
         x = r.random()
+        if x < 0.04:
+            return ["lit", None]             # publishing null over a value must clear it downstream
         if x < 0.5:
             return ["lit", "p:%s.%d.%d" % (name, ti, pi)]
         if x < 0.7 and t["shape"] in ("token", "list") and not (t["shape"] == "list" and False):
